@@ -4,6 +4,7 @@ inline_body(F, body, depth) returns a new Body whose calls to small, non-recursi
 definition is visible as a local aggregate) are replaced by a renumbered copy of the callee's blocks. Every block carries `origin`
 (def-path of the function it came from) so that site keys stay stable."""
 import copy
+import re
 
 from .facts import Body, strip_generics
 from . import flow
@@ -115,6 +116,16 @@ def inline_body(F, body, depth=3, _stack=None, keep=(), only=None):
         if len(blk.get("inl_stack", [])) >= depth:
             continue
         tmp_body = None
+        if t["k"] == "call" and t.get("target") is not None and t.get("dest") is not None and \
+                strip_generics(t.get("callee", "")) in ("core::cmp::PartialEq::eq", "core::cmp::PartialEq::ne"):
+            if _summarise_enum_eq(F, raw, bi, t, body):
+                changed = True
+                work.extend(range(len(raw["blocks"]) - 2, len(raw["blocks"])))
+                continue
+        if t["k"] == "call" and t.get("target") is not None and t.get("dest") is not None and strip_generics(t.get("callee", "")) == "core::option::Option::ok_or":
+            if _summarise_ok_or(raw, bi, t):
+                changed = True
+                continue
         c = _callee_of(F, body, t, origin_stack, keep, only)
         mode = None
         callee = None
@@ -214,6 +225,8 @@ def inline_body(F, body, depth=3, _stack=None, keep=(), only=None):
         blk["stmts"] = blk["stmts"] + stmts
         blk["term"] = {"k": "goto", "target": bo, "span": span, "inlined_call": callee.path}
         work.extend(range(bo, bo + len(craw["blocks"])))
+    if changed:
+        forward_refs(raw, len(body.raw["locals"]), body.raw.get("args", 0))
     thread_jumps(raw)
     if not changed and not any(b_.get("jt_clone") is not None or b_["term"].get("jt_folded") for b_ in raw["blocks"]):
         return body
@@ -221,6 +234,77 @@ def inline_body(F, body, depth=3, _stack=None, keep=(), only=None):
     nb.unit = getattr(body, "unit", None)
     nb.inlined = True
     return nb
+
+
+def forward_refs(raw, n0, argc):
+    """After inlining, a helper that took `&self.field` (or `&mut *self`) reads its state through a reference local. Rules look at
+    places rooted in the caller's own locals, so places based on such a reference are rewritten to the place it points to:
+    `_s = &mut (*_1).state; .. (*_s).max` becomes `.. (*_1).state.max`. Only single-definition reference locals introduced by the
+    inlining (id >= n0) are rewritten, and only when they point into an argument of the outer body through field / deref projections
+    (a stable address for the whole body)."""
+    if isinstance(argc, list):
+        argc = len(argc)
+    defs = {}
+    for b in raw["blocks"]:
+        for s in b["stmts"]:
+            if s["k"] == "assign" and s["pl"]["p"][:1] != ["*"]:        # (a store through the reference does not redefine it)
+                defs.setdefault(s["pl"]["l"], []).append(s["rv"] if not s["pl"]["p"] else None)
+        t = b["term"]
+        for key in ("dest", "resume_arg"):
+            d = t.get(key)
+            if isinstance(d, dict) and "l" in d:
+                defs.setdefault(d["l"], []).append(None)
+
+    def stable(p):
+        return all(e == "*" or isinstance(e, int) or (isinstance(e, dict) and "vn" in e) for e in p)
+    alias = {}
+
+    def resolve(l, depth=0):
+        if l in alias:
+            return alias[l]
+        if depth > 8:
+            return None
+        ds = defs.get(l, [])
+        out = None
+        if len(ds) == 1 and ds[0] is not None:
+            rv = ds[0]
+            if rv["k"] == "ref" and stable(rv["pl"]["p"]):
+                base, proj = rv["pl"]["l"], list(rv["pl"]["p"])
+                if 1 <= base <= argc and not defs.get(base):
+                    out = {"l": base, "p": proj}
+                elif proj[:1] == ["*"]:
+                    a = resolve(base, depth + 1)
+                    if a is not None:
+                        out = {"l": a["l"], "p": list(a["p"]) + proj[1:]}
+            elif rv["k"] == "use" and rv["op"].get("k") in ("copy", "move") and not rv["op"]["pl"]["p"]:
+                out = resolve(rv["op"]["pl"]["l"], depth + 1)
+        alias[l] = out
+        return out
+
+    def walk(x):
+        if isinstance(x, dict):
+            if set(x.keys()) == {"l", "p"} and isinstance(x["l"], int) and isinstance(x["p"], list):
+                if x["l"] >= n0 and x["p"][:1] == ["*"]:
+                    a = resolve(x["l"])
+                    if a is not None:
+                        x["p"] = list(a["p"]) + x["p"][1:]
+                        x["l"] = a["l"]
+                return
+            for v in x.values():
+                walk(v)
+        elif isinstance(x, list):
+            for v in x:
+                walk(v)
+    for b in raw["blocks"]:
+        for s in b["stmts"]:
+            if s["k"] == "assign":
+                walk(s["rv"])
+                if s["pl"]["p"]:
+                    walk(s["pl"])
+        t = b["term"]
+        for key, v in t.items():
+            if key not in ("span", "targets"):
+                walk(v)
 
 
 # Option / Result combinators that take a predicate closure, written out as the match they stand for, so that the closure body becomes
@@ -236,12 +320,114 @@ _VARIANTS = {"core::option::Option": [{"name": "None", "idx": 0, "discr": 0}, {"
              "core::result::Result": [{"name": "Ok", "idx": 0, "discr": 0}, {"name": "Err", "idx": 1, "discr": 1}]}
 
 
+def _summarise_enum_eq(F, raw, bi, t, body):
+    """`x == Enum::Unit` / `x != Enum::Unit` on a workspace-local field-less enum with a derived PartialEq, where one side is a promoted
+    `&Enum::Unit` constant: written out as the discriminant test it stands for, so that jump threading can carry a known variant into it"""
+    res = t.get("resolved") or ""
+    m = re.match(r"^<(.+) as core::cmp::PartialEq>::(eq|ne)$", res)
+    if not m:
+        return False
+    adt = F.adts.get(m.group(1))
+    if adt is None or adt.get("kind") != "Enum" or any(v.get("fields") for v in adt["variants"]):
+        return False
+    ims = [im for im in F.impls_of("core::cmp::PartialEq", m.group(1))]
+    if len(ims) != 1 or not ims[0].get("derived"):
+        return False
+    args = t.get("args", [])
+    if len(args) != 2 or any(a.get("k") not in ("copy", "move") or a["pl"]["p"] for a in args):
+        return False
+    tb = Body(raw, body.crate)
+    tb.path = body.path
+
+    def side(a):
+        """('const', variant) | ('place', place) | None for a `&Enum` argument"""
+        d = flow.single_def(tb, a["pl"]["l"])
+        for _ in range(4):
+            if d and d[0] == "assign" and d[3]["k"] == "use" and d[3]["op"].get("k") in ("copy", "move") and not d[3]["op"]["pl"]["p"]:
+                d = flow.single_def(tb, d[3]["op"]["pl"]["l"])
+            else:
+                break
+        if not (d and d[0] == "assign"):
+            return None
+        rv = d[3]
+        if rv["k"] == "use" and rv["op"].get("k") == "const" and rv["op"].get("promoted_adt") == m.group(1):
+            return ("const", rv["op"]["promoted_variant"])
+        if rv["k"] == "ref":
+            pl = rv["pl"]
+            if pl["p"] == ["*"]:
+                d2 = flow.single_def(tb, pl["l"])
+                if d2 and d2[0] == "assign" and d2[3]["k"] == "use" and d2[3]["op"].get("k") == "const" and d2[3]["op"].get("promoted_adt") == m.group(1):
+                    return ("const", d2[3]["op"]["promoted_variant"])
+            if all(e == "*" or isinstance(e, int) or (isinstance(e, dict) and "vn" in e) for e in pl["p"]):
+                return ("place", pl)
+        return None
+    sa, sb = side(args[0]), side(args[1])
+    if sa is None or sb is None or (sa[0] == "const") == (sb[0] == "const"):
+        return False
+    variant = sa[1] if sa[0] == "const" else sb[1]
+    place = sb[1] if sa[0] == "const" else sa[1]
+    vs = [{"name": v["name"], "idx": v["idx"], "discr": v["discr"]} for v in adt["variants"]]
+    hit = [v for v in vs if v["name"] == variant]
+    if not hit:
+        return False
+    span = t.get("span", "")
+    blocks, locs = raw["blocks"], raw["locals"]
+    blk = blocks[bi]
+    d = len(locs)
+    locs.append({"id": d, "ty": "isize", "synthetic": True})
+    inl = blk.get("inl_stack", [])
+    org = blk.get("origin", raw["path"])
+    is_eq = m.group(2) == "eq"
+    b_hit, b_other = len(blocks), len(blocks) + 1
+    for bid, val in ((b_hit, is_eq), (b_other, not is_eq)):
+        blocks.append({"id": bid, "cleanup": False, "origin": org, "inl_stack": inl,
+                       "stmts": [{"k": "assign", "pl": copy.deepcopy(t["dest"]), "rv": {"k": "use", "op": {"k": "const", "ty": "bool", "bool": bool(val)}}, "span": span}],
+                       "term": {"k": "goto", "target": t["target"], "span": span}})
+    blk["stmts"] = blk["stmts"] + [{"k": "assign", "pl": {"l": d, "p": []}, "rv": {"k": "discr", "pl": copy.deepcopy(place), "adt": m.group(1), "ty": m.group(1), "variants": vs}, "span": span}]
+    blk["term"] = {"k": "switch", "discr": {"k": "move", "pl": {"l": d, "p": []}}, "discr_ty": "isize", "targets": [[hit[0]["discr"], b_hit]], "otherwise": b_other, "span": span,
+                   "std_summary": "enum-eq"}
+    return True
+
+
+def _summarise_ok_or(raw, bi, t):
+    """`opt.ok_or(err)` written out as `match opt { Some(v) => Ok(v), None => Err(err) }` (so that a literal Some / None built by an
+    inlined helper is threaded through the following `?`)"""
+    args = t.get("args", [])
+    if len(args) != 2 or args[0].get("k") not in ("copy", "move") or args[0]["pl"]["p"]:
+        return False
+    span = t.get("span", "")
+    blocks, locs = raw["blocks"], raw["locals"]
+    blk = blocks[bi]
+    subj = args[0]["pl"]["l"]
+    d = len(locs)
+    locs.append({"id": d, "ty": "isize", "synthetic": True})
+    pay = len(locs)
+    locs.append({"id": pay, "ty": "", "synthetic": True})
+    inl = blk.get("inl_stack", [])
+    org = blk.get("origin", raw["path"])
+    vs = _VARIANTS["core::option::Option"]
+    b_some, b_none = len(blocks), len(blocks) + 1
+    blocks.append({"id": b_some, "cleanup": False, "origin": org, "inl_stack": inl, "stmts": [
+        {"k": "assign", "pl": {"l": pay, "p": []}, "rv": {"k": "use", "op": {"k": "move", "pl": {"l": subj, "p": [{"v": 1, "vn": "Some"}, 0]}}}, "span": span},
+        {"k": "assign", "pl": copy.deepcopy(t["dest"]), "rv": {"k": "agg", "agg": "adt", "adt": "core::result::Result", "vidx": 0, "variant": "Ok", "fields": ["0"],
+                                                              "ops": [{"k": "move", "pl": {"l": pay, "p": []}}]}, "span": span}],
+        "term": {"k": "goto", "target": t["target"], "span": span}})
+    blocks.append({"id": b_none, "cleanup": False, "origin": org, "inl_stack": inl, "stmts": [
+        {"k": "assign", "pl": copy.deepcopy(t["dest"]), "rv": {"k": "agg", "agg": "adt", "adt": "core::result::Result", "vidx": 1, "variant": "Err", "fields": ["0"],
+                                                              "ops": [copy.deepcopy(args[1])]}, "span": span}],
+        "term": {"k": "goto", "target": t["target"], "span": span}})
+    blk["stmts"] = blk["stmts"] + [{"k": "assign", "pl": {"l": d, "p": []}, "rv": {"k": "discr", "pl": {"l": subj, "p": []}, "adt": "core::option::Option", "ty": "core::option::Option", "variants": vs}, "span": span}]
+    blk["term"] = {"k": "switch", "discr": {"k": "move", "pl": {"l": d, "p": []}}, "discr_ty": "isize", "targets": [[1, b_some]], "otherwise": b_none, "span": span, "std_summary": "core::option::Option::ok_or"}
+    return True
+
+
 def _summarise_std(raw, bi, t):
     adt, hit, other = STD_SUMMARIES[strip_generics(t["callee"])]
     args = t.get("args", [])
     is_map_or = other == "default"
     clo = args[2] if is_map_or else (args[1] if len(args) > 1 else None)
-    if clo is None or clo.get("k") not in ("copy", "move") or args[0].get("k") not in ("copy", "move") or args[0]["pl"]["p"]:
+    fn_item = clo is not None and clo.get("k") == "const" and clo.get("fn")        # a plain function passed as the predicate
+    if clo is None or (clo.get("k") not in ("copy", "move") and not fn_item) or args[0].get("k") not in ("copy", "move") or args[0]["pl"]["p"]:
         return False
     span = t.get("span", "")
     blocks, locs = raw["blocks"], raw["locals"]
@@ -262,8 +448,10 @@ def _summarise_std(raw, bi, t):
     blocks.append({"id": b_hit, "cleanup": False, "origin": org, "inl_stack": inl, "stmts": [
         {"k": "assign", "pl": {"l": pay, "p": []}, "rv": {"k": "use", "op": {"k": "move", "pl": {"l": subj, "p": [{"v": hit_v["idx"], "vn": hit}, 0]}}}, "span": span},
         {"k": "assign", "pl": {"l": tup, "p": []}, "rv": {"k": "agg", "agg": "tuple", "ops": [{"k": "move", "pl": {"l": pay, "p": []}}]}, "span": span}],
-        "term": {"k": "call", "callee": "core::ops::function::FnOnce::call_once", "callee_full": "core::ops::function::FnOnce::call_once", "args": [clo, {"k": "move", "pl": {"l": tup, "p": []}}],
-                 "arg_tys": [], "dest": t["dest"], "target": t["target"], "unwind": None, "span": span, "synthetic": True}})
+        "term": ({"k": "call", "callee": clo["fn"], "callee_full": clo.get("fn_full", clo["fn"]), "resolved": clo["fn"], "args": [{"k": "move", "pl": {"l": pay, "p": []}}],
+                  "arg_tys": [], "dest": t["dest"], "target": t["target"], "unwind": None, "span": span, "synthetic": True} if fn_item else
+                 {"k": "call", "callee": "core::ops::function::FnOnce::call_once", "callee_full": "core::ops::function::FnOnce::call_once", "args": [clo, {"k": "move", "pl": {"l": tup, "p": []}}],
+                  "arg_tys": [], "dest": t["dest"], "target": t["target"], "unwind": None, "span": span, "synthetic": True})})
     if is_map_or:
         orv = {"k": "use", "op": args[1]}
     else:
